@@ -13,21 +13,28 @@ PROP_FILE = "Properties/C17.v"
 
 TRUSTED = [
     "correspondence harness: harness/props/c17.py (generators, exact float -> rational conversion, rate of each "
-    "configured model per pixel), harness/drivers/c17.py (calls the real models / pyxel.run_mode)",
+    "configured model per pixel), harness/drivers/c17.py (calls the real models / pyxel.run_mode; pooch.retrieve is "
+    "pointed at a local PNG for usaf_illumination)",
+    "translator/c17.py: the scan for clock readers under pyxel/models, the symbolic evaluation of the integrating "
+    "models' bodies (which helpers are pure, which attributes are step-independent: geometry / characteristics / "
+    "environment) and its CLASSIFICATION table (which readers are excluded as random / relaxation / bookkeeping); the "
+    "translated rows are evaluated in Coq against real calls on every run",
     "modelled, not verified: numpy element-wise float64 arithmetic is exact on the dyadic inputs of the exact stream "
     "(every intermediate value has < 53 significant bits); the 0/1 spatial mask of rectangular/elliptic illumination "
-    "and of the stripe pattern is taken from the implementation's own calculate_illumination/compute_pattern at "
-    "level 1 (the property is about time, not shape); the dark-current rate in e-/pixel/s is measured on the "
-    "implementation at unit time step (figure_of_merit chosen so that the measured rate is a small dyadic number)",
-    "no translator: the property has no table/guard-shaped part beyond the Readout guards, which are modelled by "
-    "valid_schedule and checked by correspondence (a few refused schedules per run)",
+    "and of the stripe pattern, the placement (crop/align) of loaded files and the interpolated rotated stripe pattern "
+    "are taken from the implementation's own helpers (the property is about time, not shape); the dark-current rates "
+    "in e-/pixel/s are measured on the implementation at unit time step (figure_of_merit chosen so that the measured "
+    "rate is a small dyadic number); system_gain is read from the detector",
 ]
 
 TOL = Fraction(1, 10 ** 9)
 RATE_MODELS = ["ill_uniform", "ill_rect", "ill_ellip", "load_image", "stripe", "load_charge", "dark_current",
-               "dark_current_rule07"]
+               "dark_current_rule07", "usaf"]
+# time-integrating models that are only called directly (K-free proportionality of their increment): the
+# scene -> photon projection needs a scene generator in front of it and makes 3-D photons
+INC_ONLY = ["scene"]
 CHARGE_KINDS = ["load_charge", "dark_current", "dark_current_rule07"]
-PHOTON_KINDS = ["ill_uniform", "ill_rect", "ill_ellip", "load_image", "stripe"]
+PHOTON_KINDS = ["ill_uniform", "ill_rect", "ill_ellip", "load_image", "stripe", "usaf"]
 
 
 # ------------------------------------------------------------------------------------------ literals
@@ -111,6 +118,9 @@ VARIANTS = {
     "stripe": [dict(ts=False, angle=0), dict(ts=True, angle=0), dict(ts=True, angle=90), dict(ts=False, angle=30)],
     "load_charge": [dict(), dict(ts=True), dict(place="position", ts=True), dict(place="shape")]
                    + [dict(place=a, ts=(i % 2 == 1)) for i, a in enumerate(ALIGNS)],
+    "usaf": [dict(), dict(ts=True, mult=True), dict(convert=True, ts=True), dict(place="position", convert=True, mult=True),
+             dict(place="center", ts=True), dict(place="top_right")],
+    "scene": [dict(integrate=True), dict(integrate=False)],
     "dark_current": [dict(), dict(band_gap=True)],
     "dark_current_rule07": [dict(cutoff=False), dict(cutoff=True)],
 }
@@ -152,6 +162,22 @@ def gen_model(r, kind, det, dy, variant=None):
         if v.get("convert"):
             m["convert"] = True
             m["bit_resolution"] = r.choice([8, 10, 12, 6])
+    elif kind == "usaf":
+        # the 8-bit image the model would download, here a small local file of arbitrary shape
+        fr_, fc_ = r.randrange(1, rows + 3), r.randrange(1, cols + 3)
+        m = dict(m="usaf_illumination", data=[H(float(r.randrange(0, 256))) for _ in range(fr_ * fc_)], data_shape=[fr_, fc_])
+        if v.get("place") == "position":
+            m["position"] = [r.randrange(-(fr_ - 1), rows), r.randrange(-(fc_ - 1), cols)]
+        elif v.get("place") in ALIGNS:
+            m["align"] = v["place"]
+        if v.get("mult"):
+            m["multiplier"] = H(r.choice([2.0, 0.5, 3.0, 1.5]) if dy else round(r.uniform(0.1, 5), 3))
+        if v.get("convert"):
+            m["convert"] = True
+            m["bit_resolution"] = r.choice([8, 10, 12, 6])
+    elif kind == "scene":
+        m = dict(m="scene_collection", aperture=H(r.choice([1.0, 0.5, 2.0, 1.5])), pixel_scale=H(r.choice([12.0, 16.0, 10.0])),
+                 integrate=bool(v.get("integrate", True)), flux_scale=H(r.choice([1.0, 2.0, 8.0])))
     elif kind == "stripe":
         per = r.choice([p for p in (2, 4, 6, 8) if p // 2 <= max(rows, cols)])
         m = dict(m="stripe_pattern", level=H(gen_level(r, dy)), period=per, startwith=r.randrange(2))
@@ -183,7 +209,7 @@ def gen_model(r, kind, det, dy, variant=None):
         m = dict(m="qe_map", data=[H(v) for v in vals], fmt="npy")
     else:
         raise ValueError(kind)
-    if kind in ("ill_uniform", "ill_rect", "ill_ellip", "load_image", "stripe", "load_charge") and v.get("ts", False):
+    if kind in ("ill_uniform", "ill_rect", "ill_ellip", "load_image", "stripe", "load_charge", "usaf") and v.get("ts", False):
         m["time_scale"] = H(gen_ts(r, dy))
     return m
 
@@ -193,6 +219,7 @@ def gen_pipeline(r, dy, kinds=None):
     if kinds is None:
         nph = r.choice([0, 1, 1, 2, 2, 3])
         kinds = [r.choice(PHOTON_KINDS) for _ in range(nph)]
+        kinds = [k for i, k in enumerate(kinds) if k != "usaf" or "usaf" not in kinds[:i]]   # one download per pipeline
         kinds += [k for k in CHARGE_KINDS if r.random() < (0.45 if k != "dark_current_rule07" else 0.2)]
         if not kinds:
             kinds = [r.choice(RATE_MODELS)]
@@ -243,8 +270,15 @@ def gen_partition(r, dy, start, end, n):
     return ts
 
 
-def exposure_payload(det, models, start, times, nd):
-    return dict(kind="exposure", det=det, models=models, start=H(start), times=[H(t) for t in times], nd=bool(nd))
+def exposure_payload(det, models, start, times, nd, entry=None):
+    p = dict(kind="exposure", det=det, models=models, start=H(start), times=[H(t) for t in times], nd=bool(nd))
+    if entry == "exposure_mode":     # the deprecated public entry point (own copy of the readout loop)
+        p["entry"] = entry
+    return p
+
+
+def gen_entry(r):
+    return "exposure_mode" if r.random() < 0.3 else None
 
 
 # ------------------------------------------------------------------------------------------ rates (exact rationals)
@@ -272,12 +306,12 @@ def model_rates(det, m, aux):
         if any(p not in (0, 1) for p in pat) or len(pat) != n:
             raise ValueError(f"spatial pattern of {k} is not a 0/1 mask of the detector shape")
         return [fr(m["level"]) / ts * p for p in pat]
-    if k in ("load_image", "load_charge"):
+    if k in ("load_image", "load_charge", "usaf_illumination"):
         img = [fr(v) for v in (aux["image"] if "image" in aux else m["data"])]
         if len(img) != n:
             raise ValueError(f"placed file of {k} does not have the detector shape")
         f = Fraction(1) / ts
-        if k == "load_image":
+        if k in ("load_image", "usaf_illumination"):
             f *= fr(m["multiplier"]) if "multiplier" in m else Fraction(1)
             if m.get("convert"):
                 # documented ADU -> photon factor: 2^adc_bit_resolution / 2^bit_resolution / system_gain
@@ -292,7 +326,7 @@ def model_ops(det, m, aux):
     """Per pixel: the Coq op of this configured model (its rate at that pixel as an exact rational)."""
     n = det["rows"] * det["cols"]
     k = m["m"]
-    if k in ("illumination", "stripe_pattern", "load_image"):
+    if k in ("illumination", "stripe_pattern", "load_image", "usaf_illumination"):
         return [f"PhotonRate {Q(x)}" for x in model_rates(det, m, aux)]
     if k in ("load_charge", "dark_current", "dark_current_rule07"):
         return [f"ChargeRate {Q(x)}" for x in model_rates(det, m, aux)]
@@ -313,7 +347,9 @@ def exact_possible(models, auxs) -> bool:
         if m["m"] in ("dark_current", "dark_current_rule07") and \
                 not all(is_small_dyadic(fr(v)) for v in a.get("rate", [])):
             return False
-        if m["m"] == "load_image" and m.get("convert") and not pow2(fr(a["system_gain"])):
+        if m["m"] == "scene_collection":
+            return False
+        if m["m"] in ("load_image", "usaf_illumination") and m.get("convert") and not pow2(fr(a["system_gain"])):
             return False
         if "pattern_level" in a and not all(is_small_dyadic(fr(v)) for v in a["pattern_level"]):
             return False
@@ -376,7 +412,8 @@ def build_scale(item, ra, rb):
 
 
 def bucket_of(m):
-    return "photon" if m["m"] in ("illumination", "load_image", "stripe_pattern") else "charge"
+    return "photon" if m["m"] in ("illumination", "load_image", "stripe_pattern", "usaf_illumination",
+                                  "scene_collection") else "charge"
 
 
 def build_inc(item, res):
@@ -424,7 +461,7 @@ TABLE = {"st": None}     # the structure returned by translator/c17.py for the t
 
 FAMILY = {"illumination": ["ill_uniform", "ill_rect", "ill_ellip"], "load_image": ["load_image"],
           "stripe_pattern": ["stripe"], "load_charge": ["load_charge"], "dark_current": ["dark_current"],
-          "dark_current_rule07": ["dark_current_rule07"]}
+          "dark_current_rule07": ["dark_current_rule07"], "usaf_illumination": ["usaf"]}
 
 
 class Skip(Exception):
@@ -452,7 +489,7 @@ def approx_kw(m):
     kw = {}
     if "time_scale" in m:
         kw["time_scale"] = float.fromhex(m["time_scale"])
-    if k == "load_image":
+    if k in ("load_image", "usaf_illumination"):
         kw.update(convert_to_photons=bool(m.get("convert")), bit_resolution=m.get("bit_resolution"),
                   include_header=False, align=m.get("align"))
         if "multiplier" in m:
@@ -503,7 +540,7 @@ def provide(nm, det, m, aux, kw, n):
         return None if v is None else ("s", fr(v))
     if nm.startswith("call:"):
         base = nm[5:].split("#")[0]
-        if base == "load_cropped_and_aligned_image" and m["m"] in ("load_image", "load_charge"):
+        if base == "load_cropped_and_aligned_image" and m["m"] in ("load_image", "load_charge", "usaf_illumination"):
             img = [fr(v) for v in (aux["image"] if "image" in aux else m["data"])]
             return ("p", img) if len(img) == n else None
         if base in ("calculate_illumination", "compute_pattern") and m["m"] in ("illumination", "stripe_pattern"):
@@ -601,6 +638,15 @@ def call_items(ctx, r, n_extra, dy):
             items.append(dict(type="inc", dy=dy, payloads=[pl], name=kind))
             items.append(dict(type="lin", dy=dy, payloads=[pl], name=kind))
             items.append(dict(type="rate", dy=dy, payloads=[pl], name=kind))
+    for kind in INC_ONLY:
+        for variant in VARIANTS[kind]:
+            det = dict(gen_det(r, dy=dy), rows=24, cols=24)
+            m = gen_model(r, kind, det, dy, variant)
+            steps = []
+            while len(set(steps)) < 3:
+                steps = [gen_increment(r, dy) for _ in range(3)]
+            pl = dict(kind="call", det=det, model=m, steps=[H(x) for x in steps], time=H(7.0), prefill=None)
+            items.append(dict(type="inc", dy=dy, payloads=[pl], name=kind))
     for kind in ["simple_conversion", "qe_map", "simple_collection"]:
         for _ in range(max(2, n_extra)):
             det = gen_det(r, small=True, dy=dy)
@@ -629,10 +675,10 @@ def exposure_items(ctx, r, n_pair, n_scale, n_single, dy, kinds_list=()):
         # several splittings of the same total: a random one, a second one, a fine one and the single readout
         ta = gen_partition(r, dy, start, end, r.randrange(2, 13))
         others = [gen_partition(r, dy, start, end, r.choice([2, 3, 5, 8])), gen_partition(r, dy, start, end, 12), [end]]
-        pa = exposure_payload(det, models, start, ta, True)
+        pa = exposure_payload(det, models, start, ta, True, gen_entry(r))
         items.append(dict(type="exp", dy=dy, payloads=[pa]))
         for tb in others:
-            pb = exposure_payload(det, models, start, tb, True)
+            pb = exposure_payload(det, models, start, tb, True, gen_entry(r))
             items += [dict(type="exp", dy=dy, payloads=[pb]), dict(type="pair", dy=dy, payloads=[pa, pb])]
     for _ in range(n_scale):
         det, models = pipe()
@@ -648,14 +694,15 @@ def exposure_items(ctx, r, n_pair, n_scale, n_single, dy, kinds_list=()):
                 tb.append(t)
             if tb[0] != 0.0:
                 break
-        pa, pb = exposure_payload(det, models, sa, ta, False), exposure_payload(det, models, sb, tb, False)
+        pa = exposure_payload(det, models, sa, ta, False, gen_entry(r))
+        pb = exposure_payload(det, models, sb, tb, False, gen_entry(r))
         items += [dict(type="exp", dy=dy, payloads=[pa]), dict(type="exp", dy=dy, payloads=[pb])]
         if dy:  # with non-dyadic times the scaled steps are not exactly c times the steps: no exact premise
             items.append(dict(type="scale", dy=dy, c=H(c), payloads=[pa, pb]))
     for _ in range(n_single):
         det, models = pipe()
         s, ts = gen_times(r, dy)
-        items.append(dict(type="exp", dy=dy, payloads=[exposure_payload(det, models, s, ts, r.random() < 0.5)]))
+        items.append(dict(type="exp", dy=dy, payloads=[exposure_payload(det, models, s, ts, r.random() < 0.5, gen_entry(r))]))
     return items
 
 
@@ -804,7 +851,7 @@ def describe(rec):
         return (f"{p['model']['m']} called with time steps {[float.fromhex(s) for s in p['steps']]} on a "
                 f"{p['det']['rows']}x{p['det']['cols']} detector")
     ts = [float.fromhex(t) for t in p["times"]]
-    s = (f"{'non-destructive' if p['nd'] else 'destructive'} exposure start={float.fromhex(p['start'])} times={ts} "
+    s = (f"{'non-destructive' if p['nd'] else 'destructive'} exposure{' (pyxel.exposure_mode)' if p.get('entry') else ''} start={float.fromhex(p['start'])} times={ts} "
          f"models={model_names(it)} on {p['det']['rows']}x{p['det']['cols']}")
     if len(it["payloads"]) > 1:
         q = it["payloads"][1]
@@ -843,7 +890,7 @@ def to_violation(rec) -> Violation:
                      what=f"{clause}: {describe(rec)}", sig=sig)
 
 
-PH_NAMES = ("illumination", "load_image", "stripe_pattern")
+PH_NAMES = ("illumination", "load_image", "stripe_pattern", "usaf_illumination")
 CV_NAMES = ("simple_conversion", "qe_map")
 
 
@@ -857,8 +904,11 @@ def tiny_payload(p):
     ms = []
     for m in p["models"]:
         m = dict(m)
-        if "data" in m:
+        if "data" in m and m["m"] != "usaf_illumination":
             m["data"] = m["data"][:side * side]
+            m.pop("data_shape", None)
+            m.pop("position", None)
+            m.pop("align", None)
         if m.get("option") in ("rectangular", "elliptic"):
             m["object_size"] = [2 * side + 1, 2 * side + 1]
             m.pop("object_center", None)
@@ -965,6 +1015,7 @@ def coverage(ctx: Ctx, recs):
             ctx.dist("readouts", len(p["times"]))
             ctx.dist("geometry", f"{p['det']['rows']}x{p['det']['cols']}")
             ctx.dist("mode", "non_destructive" if p["nd"] else "destructive")
+            ctx.dist("entry_point", p.get("entry", "run_mode"))
             ctx.dist("start", "zero" if float.fromhex(p["start"]) == 0 else
                      ("negative" if float.fromhex(p["start"]) < 0 else "positive"))
             for nm in model_names(it):
@@ -999,9 +1050,13 @@ def coverage(ctx: Ctx, recs):
 def run(ctx: Ctx):
     ctx.trusted += TRUSTED
     ctx.assumptions += [
-        "pipelines contain only the listed models: illumination (uniform/rectangular/elliptic), load_image, "
-        "stripe_pattern (angle 0), simple_conversion / conversion_with_qe_map with binomial_sampling=False, load_charge, "
-        "dark_current with temporal_noise=False and no spatial noise, simple_collection (exactly one, last)",
+        "pipelines contain only the models classified as time-integrating by translator/c17.py with every option that "
+        "is not a noise switch: illumination (uniform/rectangular/elliptic, object size/centre, time_scale), load_image and "
+        "usaf_illumination (position, align, file shape, multiplier, time_scale, convert_to_photons + bit_resolution), "
+        "stripe_pattern (period, startwith, angle, time_scale), load_charge (position, align, time_scale), dark_current "
+        "(figure_of_merit, band gaps) and dark_current_rule07 (cut-off) with temporal_noise=False and no spatial noise, "
+        "simple_conversion / conversion_with_qe_map with binomial_sampling=False, simple_collection (exactly one, last); "
+        "the scene -> photon simple_collection is called directly only",
         "exact stream: dyadic times, levels, file values, time scales (powers of two), QE; equality is exact. "
         "Non-dyadic stream: relative tolerance 1e-9, reported separately in the distribution",
         "stripe_pattern only on even detector shapes (it returns a smaller array on odd shapes - outside this property)",
@@ -1027,7 +1082,7 @@ def run(ctx: Ctx):
                        "non-zero start time and a non-zero final pixel value; every direct model call uses >= 3 distinct "
                        "time steps and a pre-filled bucket")
     ctx.cov["disagreements_checked"] = sum(1 for x in recs if x["mismatch"])
-    ctx.cov["exhaustive"] = "all 127 non-empty subsets of the 7 rate models (thorough tier)" if not q else False
+    ctx.cov["exhaustive"] = f"all {2 ** len(RATE_MODELS) - 1} non-empty subsets of the {len(RATE_MODELS)} rate models (thorough tier)" if not q else False
     for rec in [x for x in recs if x["item"]["type"] == "pair"][:2] + [x for x in recs if x["item"]["type"] == "inc"][:1]:
         ctx.sample(dict(what=describe(rec), mismatch=rec["mismatch"], violation=rec["violation"]))
     collect(ctx, recs)
@@ -1172,17 +1227,28 @@ META = dict(
         "models, expectation-value conversions, charge-rate models, one simple collection), every accepted schedule and "
         "start time, the pixel charge at readout i of a non-destructive exposure is (total rate)*(t_i - start) - hence "
         "the final charge is the same for any two partitions with the same end points - and each destructive frame is "
-        "(total rate)*(t_i - t_(i-1)), so scaling every interval by c scales every frame by c. That the real code is "
-        "this model is established by correspondence (= testing): each listed real model is called with several time "
-        "steps and its increment is judged inside Coq to be rate*step with a step-independent rate (and the documented "
-        "closed-form rate level/time_scale etc.); real pyxel.run_mode exposures under pairs of random partitions of "
-        "the same interval, and under scaled destructive schedules, are judged inside Coq against the model trace, the "
-        "closed forms, and each other."),
+        "(total rate)*(t_i - t_(i-1)), so scaling every interval by c scales every frame by c. Tie to the source, "
+        "regenerated on every run (translator/c17.py, fail closed): (a) every function under pyxel/models that reads the "
+        "exposure clock or takes a time_scale must be classified as time-integrating or excluded with a reason, and "
+        "every parameter of an integrating model must be classified; (b) for the expression-shaped integrating models "
+        "(illumination, load_image, usaf_illumination, stripe_pattern, load_charge, dark_current, dark_current_rule07) the "
+        "quantity added to the bucket is read symbolically for every option branch, and Coq proves over the regenerated "
+        "table that every deterministic branch is (value at unit step)*time_step for all argument values, is additive "
+        "over any split of the step, and is a PhotonRate/ChargeRate op of the exposure model; (c) the Readout.__init__ "
+        "refusals read from the source accept exactly valid_schedule. That the helpers treated as step-independent are "
+        "so, that the translated rows describe what the code does, and the exposure loop itself, are established by "
+        "correspondence (= testing): each real model with every option variant is called with several time steps and "
+        "judged inside Coq (K-free proportionality, closed-form rate, the translated row evaluated on the actual "
+        "arguments); real pyxel.run_mode exposures under several partitions of the same interval, and under scaled "
+        "destructive schedules, are judged inside Coq against the model trace, the closed forms, and each other."),
     level_note=(
-        "Trusted: Coq kernel + vm_compute; the harness and driver; numpy float64 arithmetic being exact on the dyadic "
-        "inputs (a separate non-dyadic stream uses a 1e-9 relative tolerance); the spatial 0/1 masks and the dark-current "
-        "rate per unit time are taken from the implementation (the property is about the time dependence). Only the "
-        "listed noise-free models are covered; stripe_pattern only on even shapes and angle 0."),
-    technique="Coq proof (induction over the schedule, telescoping) + in-Coq correspondence/spec evaluation of real runs",
+        "Trusted: Coq kernel + vm_compute; the harness, driver and translator (its symbolic evaluator and classification "
+        "table); numpy float64 arithmetic being exact on the dyadic inputs (a separate non-dyadic stream uses a 1e-9 "
+        "relative tolerance); spatial masks, file placement, system_gain and the dark-current rates per unit time are "
+        "taken from the implementation (the property is about the time dependence). Noise options and always-random "
+        "models are outside the property; the scene projection (photon_collection.simple_collection) is covered by "
+        "direct calls only."),
+    technique="Coq proof (induction over the schedule, telescoping; homogeneity of the translated increment expressions) "
+              "+ fail-closed translator + in-Coq correspondence/spec evaluation of real runs",
     design_ref="DESIGN.md section 6, C17",
 )
